@@ -5,7 +5,9 @@
    Numbers.  A grid is g = <<g1, g2, g3>>.  A k-point is an integer triple p on the mesh M = <<g1 m1, g2 m2, g3 m3>>
    (coordinate c is p[c] / M[c]; m = <<1, 1, 1>>: every point is on the grid; p may lie outside 0..M-1: periodic
    images).  Data are integers, one per k-point (the harness multiplies them with distinct integer weights per band
-   and tensor component); an averaged value is the pair <<sum, count>>.  Indices are 0-based as in the code. *)
+   and tensor component); an averaged value is the pair <<sum, count>>.  In the models all images of one grid point
+   carry the same value (they are symmetry / periodic images): which of them is taken, or that they are averaged, is
+   a tie-break the statement of C30 does not fix.  Indices are 0-based as in the code. *)
 EXTENDS Integers, Sequences, FiniteSets, TLC, SequencesExt, FiniteSetsExt
 
 NPoints(g) == g[1] * g[2] * g[3]
@@ -41,11 +43,13 @@ RECURSIVE KMapLoop(_, _, _, _, _)
 KMapLoop(kmap, ik, pts, g, m) == IF ik >= Len(pts) THEN kmap ELSE KMapLoop(TLCEval(KMapStep(kmap, ik, pts[ik + 1], g, m)), ik + 1, pts, g, m)   \* TLCEval: evaluate eagerly
 KMap(pts, g, m) == KMapLoop(KMapInit(g), 0, pts, g, m)
 SumOver(vals, km) == FoldLeft(LAMBDA a, ik : a + vals[ik + 1], 0, km)
-(* K__Result.to_grid: data[s] = sum(dataall[ik] for ik in km) / len(km); an empty km divides 0 by 0 *)
+(* K__Result.to_grid: data[s] = sum(dataall[ik] for ik in km) / len(km).  An empty km has no value: err = "missing" (the
+   code divides 0 by 0 and raises; returning NaN in exactly the empty slots would serve the property as well -- the
+   binding accepts any exception or NaN in exactly the slots with count 0); data[s] = <<sum, count>>, <<0, 0>> if empty *)
 HasEmptySlot(kmap) == \E s \in 1..Len(kmap) : Len(kmap[s]) = 0
 Collect(vals, kmap) ==
-   IF HasEmptySlot(kmap) THEN [err |-> "ZeroDivisionError", data |-> <<>>]
-   ELSE [err |-> "", data |-> [s \in 1..Len(kmap) |-> <<SumOver(vals, kmap[s]), Len(kmap[s])>>]]
+   [err |-> IF HasEmptySlot(kmap) THEN "missing" ELSE "",
+    data |-> [s \in 1..Len(kmap) |-> <<SumOver(vals, kmap[s]), Len(kmap[s])>>]]
 ToGridOp(pts, vals, g, m) == Collect(vals, KMap(pts, g, m))
 
 (* ---- what C30 demands ---- *)
@@ -65,7 +69,10 @@ OwnValues(pts, vals, g, m, res) ==
 OnceOwnValue(pts, vals, g, m, res) ==
    ExactlyOnce(pts, g, m) =>
       \A ik \in 0..(Len(pts) - 1) : OnGrid(pts[ik + 1], m) => res.data[SlotIndex(KInt(pts[ik + 1], g, m), g) + 1] = <<vals[ik + 1], 1>>
-MissingIsError(pts, g, m, res) == (~Complete(pts, g, m)) <=> res.err = "ZeroDivisionError"
+MissingIsError(pts, g, m, res) == (~Complete(pts, g, m)) <=> res.err = "missing"
+(* ... and the slots without a value are exactly the grid points without image *)
+EmptySlotsAreMissing(pts, g, m, res) ==
+   \A s \in 0..(NPoints(g) - 1) : res.data[s + 1][2] = 0 <=> ImagesOf(pts, Unflatten(s, g), g, m) = {}
 
 (* ---- TABresult.find_grid: per direction the largest gap between sorted coordinates (1 appended) ---- *)
 Coords(pts, M, c) == {Reduce1(pts[ik], M)[c] : ik \in 1..Len(pts)} \cup {M[c]}
